@@ -8,7 +8,7 @@ from vlib import engine, formats, gen, kal, oracle
 ID = "C01"
 RULE = ("Hypothesis draws a sequence set (small fully-drawn families, expanded families up to the tier's size, "
         "unrelated sets, degenerate sets; optional duplicates, case, empty members for file entry points), names, "
-        "alignment type admissible for the kind, gap penalties, thread count and one of 9 entry points "
+        "alignment type admissible for the kind, gap penalties, thread count and one of 11 entry points "
         "(kalign(), read+run+dump, read+run+write x3 formats, CLI -o x3 formats, CLI stdout). Oracle: the C01 validity "
         "predicate over the returned rows / the independently parsed file. Non-trivial = >=2 distinct sequences and "
         ">=1 gap in the result; distinct by hash of (inputs, names, config, entry).")
@@ -18,7 +18,7 @@ BUDGET = {"quick": dict(examples=700, workers=12, seconds=75),
           "thorough": dict(examples=1500, workers=16, seconds=840)}
 
 ENTRIES = ["arr", "dump", "write:fasta", "write:msf", "write:clu", "cli:fasta", "cli:msf", "cli:clu", "stdout:fasta",
-           "stdout:clu"]
+           "stdout:clu", "stdout:msf"]
 _LOG = re.compile(r"^\[\d{4}-\d\d-\d\d \d\d:\d\d:\d\d\] :")
 
 
